@@ -82,38 +82,38 @@ type fscope struct {
 }
 
 type fgen struct {
-	t       *rapid.T
-	off     func(string) bool
-	n       int
-	classes map[string]bool
-	decls   []string
-	res     []fres
-	consts  []fval // module consts by type via constsT
-	constsT []string
-	scopes  []*fscope
-	helpers []fhelper
-	depth   int
-	maxNest int
-	useTex  bool
-	useAt   bool
-	stage   string
-	used    map[int]bool // resources used by the current entry point
-	globals []string     // module-scope value names (for shadowing)
-	hidden  []string     // module-scope names shadowed in the current block
-	needWg       bool   // workgroup variables are referenced
-	hstages      string // stages the helper being generated may be called from
+	t            *rapid.T
+	off          func(string) bool
+	n            int
+	classes      map[string]bool
+	decls        []string
+	res          []fres
+	consts       []fval // module consts by type via constsT
+	constsT      []string
+	scopes       []*fscope
+	helpers      []fhelper
+	depth        int
+	maxNest      int
+	useTex       bool
+	useAt        bool
+	stage        string
+	used         map[int]bool // resources used by the current entry point
+	globals      []string     // module-scope value names (for shadowing)
+	hidden       []string     // module-scope names shadowed in the current block
+	needWg       bool         // workgroup variables are referenced
+	hstages      string       // stages the helper being generated may be called from
 	hasTexHelper bool
 	hres         map[int]bool // resources used by the helper being generated
 	noMustUse    bool
 	localOnly    bool // leaves must not name module-scope declarations (guard for tag forward-reference.bitcast)
-	c       *FullCase
-	vouts   []fio
+	c            *FullCase
+	vouts        []fio
 }
 
 type fhelper struct {
-	name   string
-	params []string // types
-	ret    string
+	name    string
+	params  []string // types
+	ret     string
 	res     []int // resources it uses
 	stages  string
 	mustUse bool
